@@ -1207,6 +1207,22 @@ func Gen(o Opts) *rapid.Generator[*Case] {
 			f.Outlines = genCFF(t, n, true, o, c, fl)
 		}
 
+		// a font in which every advance width is zero (hmtx still needs one
+		// long metric; numberOfHMetrics cannot shrink to nothing)
+		if rapid.IntRange(0, 24).Draw(t, "allWidthsZero") == 0 {
+			switch o := f.Outlines.(type) {
+			case *glyf.Outlines:
+				for i := range o.Widths {
+					o.Widths[i] = 0
+				}
+			case *cff.Outlines:
+				for _, g := range o.Glyphs {
+					g.Width = 0
+				}
+			}
+			c.label("all-widths-zero")
+		}
+
 		// layout tables
 		hasGsub, hasGpos, hasGdef := false, false, false
 		switch o.Layout {
